@@ -152,6 +152,25 @@ SyncCommitteeIndices(P, vals, mixes, HT, epoch) ==
         seed == Seed(P, mixes, epoch, DOMAIN_SYNC_COMMITTEE, HT)
     IN SyncLoop(P, vals, indices, ShufCtx(Len(indices), P.SHUFFLE_ROUND_COUNT, seed, HT), seed, HT, 0, << >>)
 
+(* get_next_sync_committee(state) = SyncCommittee(pubkeys = [validators[i].pubkey for i in indices],               *)
+(*                                                  aggregate_pubkey = eth_aggregate_pubkeys(pubkeys)).             *)
+(* BLS is an environment oracle: the aggregate of a list of keys depends only on the BAG of keys (one occurrence   *)
+(* per seat -- a validator that holds two seats contributes its key twice).  The bag is represented by the sorted  *)
+(* seat list; Agg is the oracle: a sequence of << sorted seat list, aggregate >> pairs.                            *)
+SeatBag(seats) ==
+    LET RECURSIVE ins(_, _)
+        ins(x, srt) == IF srt = << >> THEN << x >>
+                       ELSE IF x <= Head(srt) THEN << x >> \o srt ELSE << Head(srt) >> \o ins(x, Tail(srt))
+        RECURSIVE go(_)
+        go(k) == IF k = 0 THEN << >> ELSE ins(seats[k], go(k - 1))
+    IN go(Len(seats))
+
+\* aggregate_pubkey of the committee with these seats ("unknown" if the oracle has no entry for the bag)
+AggregateOf(Agg, seats) ==
+    LET bag == SeatBag(seats)
+        qs == {q \in 1 .. Len(Agg) : Agg[q][1] = bag}
+    IN IF qs = {} THEN "unknown" ELSE Agg[CHOOSE q \in qs : TRUE][2]
+
 (************************ structural properties ***************************)
 (* "Within an epoch the committees partition the active validator set:     *)
 (* every active validator sits in exactly one committee, and committee     *)
